@@ -421,10 +421,10 @@ func (p *Path) exec(fr *frame, ins ssa.Instruction) {
 		idx := p.get(fr, in.Index).(*Term)
 		switch xv := x.(type) {
 		case *ArrayVal:
-			i := p.index(idx, len(xv.E))
+			i := p.index(idx, len(xv.E), isSigned(in.Index.Type()))
 			fr.locals[in] = copyVal(xv.Get(i))
 		case *StrVal:
-			i := p.index(idx, len(xv.B))
+			i := p.index(idx, len(xv.B), isSigned(in.Index.Type()))
 			fr.locals[in] = xv.B[i]
 		default:
 			p.unsupported("Index on %T", x)
@@ -434,14 +434,14 @@ func (p *Path) exec(fr *frame, ins ssa.Instruction) {
 		idx := p.get(fr, in.Index).(*Term)
 		switch xv := x.(type) {
 		case *SliceVal:
-			i := p.index(idx, xv.lenOrZero())
+			i := p.index(idx, xv.lenOrZero(), isSigned(in.Index.Type()))
 			fr.locals[in] = &Pointer{Obj: xv.Obj, Path: []int{xv.Off + i}}
 		case *Pointer:
 			if xv.IsNil() {
 				p.gopanic("nil pointer dereference (indexaddr)", nil)
 			}
 			arr := xv.load().(*ArrayVal)
-			i := p.index(idx, len(arr.E))
+			i := p.index(idx, len(arr.E), isSigned(in.Index.Type()))
 			fr.locals[in] = xv.Sub(i)
 		default:
 			p.unsupported("IndexAddr on %T", x)
@@ -451,7 +451,7 @@ func (p *Path) exec(fr *frame, ins ssa.Instruction) {
 		switch xv := x.(type) {
 		case *StrVal:
 			idx := p.get(fr, in.Index).(*Term)
-			i := p.index(idx, len(xv.B))
+			i := p.index(idx, len(xv.B), isSigned(in.Index.Type()))
 			fr.locals[in] = xv.B[i]
 		case *MapVal:
 			k := p.get(fr, in.Index)
@@ -551,7 +551,10 @@ func (s *SliceVal) lenOrZero() int {
 }
 
 // index resolves an index term against a concrete length, raising a Go panic if out of range is feasible.
-func (p *Path) index(idx *Term, n int) int {
+func (p *Path) index(idx *Term, n int, signed bool) int {
+	if !signed && idx.S.W < 64 {
+		idx = ZExt(idx, 64)
+	}
 	if idx.IsConst() {
 		i := idx.Int64()
 		if i < 0 || i >= int64(n) {
